@@ -1,8 +1,9 @@
 #!/bin/bash
 # usage: tools/confirm_seed.sh <property> <mK> [srcdir] [name-to-store-under]
 # Confirms a seeded change independently in a scratch worktree (outside /repo and
-# /verif), then runs the property's quick check against it in /repo and records
-# everything under /verif/seeded/<property>-<mK>/.
+# /verif), then runs the property's quick check against it (engine pointed at the scratch
+# tree through REPO_DIR, with /repo's current contract files copied in) and records
+# everything under /verif/seeded/<property>-<name>/.  Safe to run several at once.
 set -u
 id="$1"; m="$2"; src="${3:-/tmp/seedout/$id/$m}"
 export GOFLAGS=-mod=mod GOPROXY=off GOSUMDB=off GOTOOLCHAIN=local
@@ -14,11 +15,12 @@ cp "$src/patch.diff" "$out/patch.diff"
 [ -f "$src/demo.sh" ] && cp "$src/demo.sh" "$out/demo.sh"
 cp "$src/meta.json" "$out/agent_meta.json" 2>/dev/null
 wt=$(mktemp -d /tmp/confirm.XXXXXX); rmdir "$wt"
+log=$(mktemp /tmp/confirmlog.XXXXXX)
 git -C /repo worktree add -q --detach "$wt" HEAD || exit 2
 demo_dir=$(python3 -c "import json;print(json.load(open('$src/meta.json')).get('demo_dir','martian/core'))" 2>/dev/null || echo martian/core)
 demo_run=$(python3 -c "import json;print(json.load(open('$src/meta.json')).get('demo_run',''))" 2>/dev/null)
 [ -z "$demo_run" ] && demo_run="go test -vet=off -count=1 -run TestZZ ./$demo_dir/"
-run_demo() { (cd "$wt" && if [ -f "$src/demo_test.go" ]; then cp "$src/demo_test.go" "$demo_dir/zz_demo_test.go"; fi; timeout 300 bash -c "$demo_run" >/tmp/confirm_demo.log 2>&1; rc=$?; rm -f "$demo_dir/zz_demo_test.go"; exit $rc); }
+run_demo() { (cd "$wt" && if [ -f "$src/demo_test.go" ]; then cp "$src/demo_test.go" "$demo_dir/zz_demo_test.go"; fi; timeout 600 bash -c "$demo_run" >"$log" 2>&1; rc=$?; rm -f "$demo_dir/zz_demo_test.go"; exit $rc); }
 run_demo; demo_clean=$?
 applies=0
 if ! (cd "$wt" && git apply "$src/patch.diff" 2>/dev/null); then
@@ -26,7 +28,6 @@ if ! (cd "$wt" && git apply "$src/patch.diff" 2>/dev/null); then
   (cd "$wt" && patch -p1 -F3 -s --no-backup-if-mismatch -r /dev/null < "$src/patch.diff" >/dev/null 2>&1)
   (cd "$wt" && find . -name '*.orig' -delete -o -name '*.rej' -delete)
   if [ -n "$(cd "$wt" && git diff --stat)" ]; then
-    # hunks that only touched text already changed by a fix: commit (typically a comment) are dropped
     cp "$src/patch.diff" "$out/patch.orig.diff"
     (cd "$wt" && git diff) > "$out/patch.diff"
   else
@@ -35,32 +36,29 @@ if ! (cd "$wt" && git apply "$src/patch.diff" 2>/dev/null); then
   fi
 fi
 builds=1; suite=1; demo_patched=0
+chk_rc=-1; chk_out=""
 if [ $applies -eq 0 ]; then
   (cd "$wt" && go build ./... >/dev/null 2>&1); builds=$?
-  (cd "$wt" && go test -vet=off -count=1 ./... >/tmp/confirm_suite.log 2>&1); suite=$?
-  if [ $suite -ne 0 ]; then (cd "$wt" && go test -vet=off -count=1 ./... >/tmp/confirm_suite.log 2>&1); suite=$?; fi
+  (cd "$wt" && go test -vet=off -count=1 ./... >"$log.suite" 2>&1); suite=$?
+  if [ $suite -ne 0 ]; then (cd "$wt" && go test -vet=off -count=1 ./... >"$log.suite" 2>&1); suite=$?; fi
   run_demo; demo_patched=$?
+  # our check against the change: the scratch tree with /repo's current contract files
+  for f in $(cd /repo && ls martian/*/zz_contracts_verif.go cmd/*/zz_contracts_verif.go 2>/dev/null); do cp "/repo/$f" "$wt/$f"; done
+  chk_out=$(cd /verif && REPO_DIR="$wt" VERIF_NO_EVIDENCE=1 ./check "$id" 2>&1); chk_rc=$?
 fi
 git -C /repo worktree remove --force "$wt"
-# our check against the change, in /repo itself
-chk_rc=-1; chk_out=""
-if [ $applies -eq 0 ] && git -C /repo apply --check "$out/patch.diff" 2>/dev/null; then
-  git -C /repo apply "$out/patch.diff"
-  chk_out=$(cd /verif && VERIF_NO_EVIDENCE=1 ./check "$id" 2>&1); chk_rc=$?
-  git -C /repo apply -R "$out/patch.diff"
-fi
 python3 - "$id" "$m" "$demo_clean" "$applies" "$builds" "$suite" "$demo_patched" "$chk_rc" "$name" <<EOF
 import json,sys
 id,m,demo_clean,applies,builds,suite,demo_patched,chk_rc,name=sys.argv[1:10]
 agent={}
 try: agent=json.load(open('/verif/seeded/%s-%s/agent_meta.json'%(id,name)))
 except Exception: pass
-out=open('/dev/stdin').read() if False else ''
 meta={"property":id,"change":name,"summary":agent.get("summary"),"functions":agent.get("functions"),"needs_to_manifest":agent.get("needs"),
  "confirmed":{"demo_passes_on_unchanged_tree":demo_clean=="0","patch_applies":applies=="0","builds":builds=="0","existing_suite_passes_with_change":suite=="0","demo_fails_with_change":demo_patched!="0"},
- "ran":["scratch worktree of /repo HEAD under /tmp (removed afterwards)","demo: "+str(agent.get("demo_run")),"suite: go test -vet=off -count=1 ./...","check: git -C /repo apply patch.diff; ./check %s; git -C /repo apply -R patch.diff"%id],
+ "ran":["scratch worktree of /repo HEAD under /tmp (removed afterwards)","demo: "+str(agent.get("demo_run")),"suite: go test -vet=off -count=1 ./...","check: ./check %s with the engine pointed at the scratch worktree carrying the change (REPO_DIR)"%id],
  "check_exit_code":int(chk_rc),"detected_by_check":chk_rc=="1"}
 json.dump(meta,open('/verif/seeded/%s-%s/meta.json'%(id,name),'w'),indent=1)
-print(id,m,"valid=",all(meta["confirmed"].values()),"detected=",meta["detected_by_check"])
+print(id,name,"valid=",all(meta["confirmed"].values()),meta["confirmed"],"detected=",meta["detected_by_check"])
 EOF
 echo "$chk_out" | grep -E "VIOLATION|discharged" | head -4 > "$out/check_output.txt"
+rm -f "$log" "$log.suite"
